@@ -59,8 +59,11 @@ impl_nt!(KeyNumber, u8, 127);
 impl_nt!(ControllerNumber, u8, 127);
 
 /// all in-range values of a newtype, built through the checked constructor
+/// (a value the checked constructor wrongly rejects is left out here - the `new_<T>` sub-check of
+/// C04 / C05 reports it - so that the rest of the run still takes place instead of ending in an
+/// infrastructure error)
 fn all_values<N: Nt>() -> Vec<N> {
-    (0..=N::MAXV).map(|v| api(|| N::new_repr(v))).collect()
+    (0..=N::MAXV).filter_map(|v| guarded(|| N::new_repr(v)).ok()).collect()
 }
 
 // ---------------------------------------------------------------------------------------------
